@@ -1,4 +1,5 @@
 """C02 — memory reclamation is invisible (mechanism integrity on MIR)."""
+import re
 from ..flow import chain_blocks, origins
 from ..guards import ne, sh
 from ..mir import parent_fn, show
@@ -125,6 +126,40 @@ def param_binding(ctx, fn, block, operand):
             has_contains = any(fn.switch_info(S)["kind"] == "call" and (fn.switch_info(S)["callee"] or "").endswith("PoolSet::contains") and 0 not in al for S, al in cons)
             if "alloc_str" in txt and has_contains:
                 ok = True
+    # An array argument is a fresh vector, but its string items are borrows of the source variable's pool slots
+    # (ArenaCow::clone borrows): it has to go through a routine that visits the items (detach / promote) as well.
+    detaching = set()
+    for (bi, k, det) in origins(fn, operand, 8):
+        if k == "agg" and det[0] == "runtime::Value":
+            detaching.add(chain_blocks(bi)[-1])
+        if k == "call" and det[0] in DETACH_OK:
+            detaching.add(chain_blocks(bi)[-1])
+    for c in fn.calls():
+        if c.callee in DETACH_OK:
+            detaching.add(c.block)
+    vs = None
+    for S in sorted(fn.live):
+        if fn.blocks[S]["t"]["k"] != "switch" or not fn.dominates(S, block):
+            continue
+        si = fn.switch_info(S)
+        if si["kind"] == "discr" and si["ty"].endswith("runtime::Value") and not fn.dominates(block, S):
+            # the closest dominating dispatch on a Value that is not the loop-carried one
+            if fn.reach([S], removed_nodes=[block]) and block in fn.reach_from_succ(S):
+                vs = (S, si)
+    akey = "%s|param-binding|Array" % parent_fn(fn.id)
+    if vs is None:
+        ctx.bad(akey + "|no-dispatch", fn.where(block), "parameter binding does not look at the kind of the argument: an array argument whose string items borrow the caller's variable slots is bound as it is")
+    else:
+        S, si = vs
+        through = set()
+        for lab, tgt in fn.succ[S]:
+            names = label_names(fn, S, [lab], si)
+            if block in fn.reach([tgt], removed_nodes=detaching - {block}):
+                through |= names
+        if "Array" in through:
+            ctx.bad(akey + "|passthrough", fn.where(S), "an Array argument is bound to its parameter without visiting its items: string items of the argument still borrow the pool slots of the variable it was read from, so when the callee (or anything it calls) overwrites that variable's element the parameter reads a recycled slot")
+        else:
+            ctx.ok(akey, fn.where(S), "Array arguments pass a detaching routine before they are bound")
     key = "%s|param-binding" % parent_fn(fn.id)
     if ok:
         ctx.ok(key, fn.where(block), "Borrowed ∧ pool.contains(..) -> pool.alloc_str(..) detach present")
@@ -364,6 +399,23 @@ def r5_promotion_complete(ctx):
                     region = g.reach([tgt], removed_nodes=[S2])
                     only = {b for b in region if g.edge_dominated(b, S2, [lab])}
                     rec = any(c.callee == fid and c.block in only for c in g.calls())
+                    # ... and the arm has no way round the item loop: every value it returns is a *new* vector filled
+                    # by that loop, never the incoming vector itself (whatever arena that vector lives on, its items
+                    # may still borrow storage that is about to be released)
+                    short = fid.split("::")[-1]
+                    rets = [(b, st) for b in sorted(only) for st in g.blocks[b]["s"] if st["lhs"]["l"] == 0 and not st["lhs"]["p"]]
+                    for b, st in rets:
+                        rv = st["rv"]
+                        if rv["k"] == "agg" and rv["adt"].endswith("Value") and rv["variant"] == "Array":
+                            src = sh(ne(g.deep(rv["ops"][0])))
+                            if re.match(r"^(with_capacity_in|new_in)\(", src):
+                                ctx.ok("copy-routine|%s|array-result-fresh" % short, g.where(b), "returns a new vector (%s)" % src[:40])
+                            else:
+                                ctx.bad("copy-routine|%s|array-passthrough" % short, g.where(b), "the Array arm of Value::%s can return the incoming vector itself (`%s`) without visiting its items: strings inside it keep borrowing a variable's pool slot or frame memory that is recycled later, so a copy of an array changes when the original is written" % (short, src[:50]))
+                        else:
+                            ctx.bad("copy-routine|%s|array-passthrough" % short, g.where(b), "the Array arm of Value::%s returns `%s` without visiting the items" % (short, sh(ne(g.deep_rvalue(rv)))[:50]))
+                    if not rets:
+                        ctx.bad("copy-routine|%s|array-result-missing" % short, g.where(), "cannot see what the Array arm of Value::%s returns" % short)
         if rec:
             ctx.ok("copy-routine|%s|recurses-into-arrays" % fid.split("::")[-1], g.where(), "the Array arm calls %s on the items" % fid.split("::")[-1])
         else:
